@@ -343,12 +343,18 @@ def run_explicit(ctx, idx, rng, tmp):
     internal = bool(rng.random() < 0.3)
     if legacy and not (two or internal):
         internal = True
+    # the mapping may be stored under an explicitly named slot (the documented tuple form), so
+    # that the slots in use are not the contiguous prefix basinmap0..k
+    slot = None
+    if not legacy and rng.random() < 0.35:
+        slot = str(rng.choice(["basinmap1", "basinmap2", "basinmap5", "basinmap0"]))
     with dclab.RTDCWriter(ref, mode="reset") as hw:
         hw.store_metadata(meta)
         for f, d in stored.items():
             hw.store_feature(f, d)
         hw.store_basin(basin_name="b1", basin_type="file", basin_format="hdf5",
-                       basin_locs=[tmp / "o1.rtdc"], basin_map=None if legacy else bmap,
+                       basin_locs=[tmp / "o1.rtdc"],
+                       basin_map=None if legacy else (bmap if slot is None else (slot, bmap)),
                        basin_feats=feats_sub)
         expect2 = None
         if two:
@@ -376,8 +382,35 @@ def run_explicit(ctx, idx, rng, tmp):
     expect = list(ALL) if feats_sub is None else [f for f in feats_sub]
     if two:
         expect = [f for f in expect if f not in ("userdef1", "mask")]
+    case["slot"] = slot
     check_file(ctx, ref, o1, ridx, override, rng, case, expect)
     import dclab as _d
+    if (slot is not None or idx % 3 == 0) and not two:
+        # a filtered export of the referrer (all features, with basins): the new file maps to
+        # the referrer and, composed, to the origin - whatever slots the referrer occupies
+        with _d.new_dataset(ref) as dsr:
+            msk = rng.random(len(dsr)) < 0.6
+            if not msk.any():
+                msk[0] = True
+            dsr.filter.manual[:] = msk
+            dsr.apply_filter()
+            exp_path = tmp / "ref_export.rtdc"
+            efeats = None if rng.random() < 0.5 else \
+                [f for f in dsr.features_innate if rng.random() < 0.5]
+            dsr.export.hdf5(exp_path, features=efeats, filtered=True, basins=True)
+        sel = np.flatnonzero(msk)
+        ov2 = {f: v[sel] for f, v in override.items()}
+        expect_e = list(expect)
+        for f in override:
+            if efeats is not None and f not in efeats and f in expect_e:
+                # not stored in the export: offered by the referrer (its own, different data)
+                # *and* by the origin - which of the two basins serves it is not stated
+                expect_e.remove(f)
+                ctx.count("skipped_feature_offered_by_two_basins")
+        check_file(ctx, exp_path, o1, ridx[sel], ov2, rng,
+                   dict(case, exported_from_referrer=True, n_export=int(len(sel)),
+                        export_features=efeats), expect_e)
+        ctx.count("exports_of_explicit_referrers")
     if two:
         o2, bmap2 = expect2
         # features restricted to the second basin must come from it, with its own map
